@@ -367,3 +367,82 @@ package state
 //@ ensures[reported-iff-committed] commits() == ite(ok, old(commits()) + 1, old(commits()))
 //@ ensures[ok-stored] ok ==> T_autopilot_config() == config && config.ModifyIndex == idx
 //@ ensures[err-not-ok] err != nil ==> !ok
+
+// ---- C04: sessions and locks
+
+//@ file session.go
+
+// a key is held by the session (the kvs "session" index compares UUIDs, i.e. case-insensitively)
+//@ pure heldBy(k string, sid string) bool = T_kvs(k) != nil && strLower(T_kvs(k).Session) == strLower(sid)
+//@ pure noLocksOf(sid string) bool = forall k string :: !heldBy(k, sid)
+//@ pure noCheckLinksOf(sid string) bool = forall k string :: T_session_checks(k) != nil ==> strLower(T_session_checks(k).Session) != strLower(sid)
+//@ pure noQueriesOf(sid string) bool = forall k string :: T_prepared_queries(k) != nil ==> strLower(T_prepared_queries(k).PreparedQuery.Session) != strLower(sid)
+
+//@ func preparedQueryDeleteTxn
+//@ props C04
+//@ results err
+//@ ensures[removed] err == nil ==> T_prepared_queries(queryID) == nil
+//@ ensures[frame-keys] forall k string :: strLower(k) != strLower(queryID) ==> T_prepared_queries(k) == old(T_prepared_queries(k))
+//@ ensures[only-removes] forall k string :: T_prepared_queries(k) == nil || T_prepared_queries(k) == old(T_prepared_queries(k))
+//@ modifies T.prepared-queries, T.index
+
+// updateSessionCheck re-evaluates the synthetic session health check; through ensureCheckTxn it can reach
+// deleteSessionTxn again (for *other* sessions bound to a check that turns critical). That mutual recursion is cut
+// here by an ASSUMED contract (listed under trusted_contracts in the evidence): it never creates a session, never
+// gives a key, check link or prepared query to a session, and leaves an absent session absent.
+//@ func Store.updateSessionCheck
+//@ trusted
+//@ results err
+//@ requires session != nil
+//@ ensures[no-session-created] forall id string :: old(T_sessions(id)) == nil ==> T_sessions(id) == nil
+//@ ensures[no-lock-given] old(noLocksOf(session.ID)) ==> noLocksOf(session.ID)
+//@ ensures[no-link-given] old(noCheckLinksOf(session.ID)) ==> noCheckLinksOf(session.ID)
+//@ ensures[no-query-given] old(noQueriesOf(session.ID)) ==> noQueriesOf(session.ID)
+//@ modifies T.sessions, T.kvs, T.tombstones, T.session_checks, T.prepared-queries, T.index, structs.DirEntry.Session, structs.DirEntry.RaftIndex, structs.DirEntry.LockIndex
+
+//@ func Store.deleteSessionTxn
+//@ props C04
+//@ results err
+//@ ensures[absent-noop] old(T_sessions(sessionID)) == nil ==> err == nil && (forall k string :: T_kvs(k) == old(T_kvs(k))) && (forall id string :: T_sessions(id) == old(T_sessions(id))) && (forall t string :: T_index(t) == old(T_index(t)))
+//@ ensures[session-gone] err == nil ==> T_sessions(sessionID) == nil
+//@ ensures[locks-gone] err == nil && old(T_sessions(sessionID)) != nil ==> noLocksOf(sessionID)
+//@ ensures[check-links-gone] err == nil && old(T_sessions(sessionID)) != nil ==> noCheckLinksOf(sessionID)
+//@ ensures[queries-gone] err == nil && old(T_sessions(sessionID)) != nil ==> noQueriesOf(sessionID)
+//@ loop 1 invariant[pos] 0 <= itPos(entries) && itPos(entries) <= itLen(entries)
+//@ loop 1 invariant[cursor] (entry != nil ==> itPos(entries) >= 1 && entry == itElem(entries, itPos(entries)-1)) && (entry == nil ==> itPos(entries) == itLen(entries))
+//@ loop 1 invariant[collected] len(kvs) == ite(entry != nil, itPos(entries) - 1, itPos(entries)) && forall j int :: 0 <= j && j < len(kvs) ==> kvs[j] == itElem(entries, j)
+//@ loop 2 invariant[remaining-cover] forall k string :: heldBy(k, sessionID) ==> exists j int :: range2_idx <= j && j < len(kvs) && kvs[j].(*structs.DirEntry) == T_kvs(k)
+//@ loop 3 invariant[remaining-cover] forall k string :: heldBy(k, sessionID) ==> exists j int :: range3_idx <= j && j < len(kvs) && kvs[j].(*structs.DirEntry) == T_kvs(k)
+//@ loop 4 invariant[pos] 0 <= itPos(mappings) && itPos(mappings) <= itLen(mappings)
+//@ loop 4 invariant[cursor] (mapping != nil ==> itPos(mappings) >= 1 && mapping == itElem(mappings, itPos(mappings)-1)) && (mapping == nil ==> itPos(mappings) == itLen(mappings))
+//@ loop 4 invariant[collected] len(objs) == ite(mapping != nil, itPos(mappings) - 1, itPos(mappings)) && forall j int :: 0 <= j && j < len(objs) ==> objs[j] == itElem(mappings, j)
+//@ loop 5 invariant[remaining-cover] forall k string :: T_session_checks(k) != nil && strLower(T_session_checks(k).Session) == strLower(sessionID) ==> exists j int :: range5_idx <= j && j < len(objs) && objs[j].(*sessionCheck) == T_session_checks(k)
+//@ loop 6 invariant[pos] 0 <= itPos(queries) && itPos(queries) <= itLen(queries)
+//@ loop 6 invariant[cursor] (wrapped != nil ==> itPos(queries) >= 1 && wrapped == itElem(queries, itPos(queries)-1)) && (wrapped == nil ==> itPos(queries) == itLen(queries))
+//@ loop 6 invariant[collected] len(ids) == ite(wrapped != nil, itPos(queries) - 1, itPos(queries)) && forall j int :: 0 <= j && j < len(ids) ==> ids[j] == itElem(queries, j).(*queryWrapper).PreparedQuery.ID
+//@ loop 7 invariant[remaining-cover] forall k string :: T_prepared_queries(k) != nil && strLower(T_prepared_queries(k).PreparedQuery.Session) == strLower(sessionID) ==> exists j int :: range7_idx <= j && j < len(ids) && ids[j] == T_prepared_queries(k).PreparedQuery.ID
+//@ loop 4 invariant[locks-gone] noLocksOf(sessionID)
+//@ loop 5 invariant[locks-gone] noLocksOf(sessionID)
+//@ loop 6 invariant[locks-gone] noLocksOf(sessionID)
+//@ loop 7 invariant[locks-gone] noLocksOf(sessionID)
+//@ loop 6 invariant[check-links-gone] noCheckLinksOf(sessionID)
+//@ loop 7 invariant[check-links-gone] noCheckLinksOf(sessionID)
+//@ loop 4 invariant[session-gone] T_sessions(sessionID) == nil
+//@ loop 5 invariant[session-gone] T_sessions(sessionID) == nil
+//@ loop 6 invariant[session-gone] T_sessions(sessionID) == nil
+//@ loop 7 invariant[session-gone] T_sessions(sessionID) == nil
+
+//@ func Store.txnSession
+//@ props C04 C05
+//@ results err
+//@ requires op != nil
+//@ ensures[only-delete-supported] err == nil ==> op.Verb == api.SessionDelete
+//@ ensures[session-gone] err == nil ==> T_sessions(op.Session.ID) == nil
+//@ ensures[invalidated] err == nil && old(T_sessions(op.Session.ID)) != nil ==> noLocksOf(op.Session.ID) && noCheckLinksOf(op.Session.ID) && noQueriesOf(op.Session.ID)
+
+//@ func Store.SessionDestroy
+//@ props C04
+//@ results err
+//@ ensures[commit-iff-ok] commits() == ite(err == nil, old(commits()) + 1, old(commits()))
+//@ ensures[session-gone] err == nil ==> T_sessions(sessionID) == nil
+//@ ensures[invalidated] err == nil && old(T_sessions(sessionID)) != nil ==> noLocksOf(sessionID) && noCheckLinksOf(sessionID) && noQueriesOf(sessionID)
